@@ -10,7 +10,10 @@ states = enabled sets) are compared; threadpool_serial.c is compared with its mo
 Search: the harness evaluates the property itself on the implementation (FIFO, exactly once,
 context exclusivity, failure reporting, deadlock = no runnable thread, step budget), plus the
 unshimmed pool with real threads under a watchdog (ASan; TSan in the thorough tier) and the
-block processor driven with a failing compressor."""
+block processor driven with a failing compressor; and (h_bpfail.c) the ASan+UBSan block processor on
+the controlled pool with a compressor failing at its k-th call, for file lists reaching every submit
+site x every k x schedules that decide who sees the failure first (submit / dequeue / get_status):
+every call returns, the failure is reported, no block is owned twice, sanitizers and LSan silent."""
 import hashlib
 import json
 import os
@@ -175,6 +178,185 @@ def gen_blk_cases(ctx):
     return cases
 
 
+# ---------------------------------------------------------------- block processor on a failing pool (h_bpfail.c)
+
+def bpfail_lists(B):
+    """file lists (op strings) that reach every submit site of the block processor; B = block size"""
+    h, q, t = B // 2, B // 4, B // 3
+    return [
+        "b0 a%d e" % (2 * B + h),                                       # one append over two boundaries; fragment tail
+        "b0 a%d a%d a%d a%d e" % (h, B, B, q),                          # every append crosses one boundary
+        "b0 a%d a%d a%d e" % (B, B, B),                                 # aligned appends (tail site), sentinel
+        "b4 a%d e" % (B + h),                                           # DONT_FRAGMENT: end_file submits the current block
+        "b4 a%d e b0 a%d e" % (3 * B, t),
+        " ".join("b0 a%d e" % (t + i) for i in range(8)),               # fragments: fragment blocks from dequeue / finish
+        "b0 a%d e b0 a%d e s b0 a%d e b0 a%d e" % (3 * B + 5, h, B, 4 * B + 1),
+        "m%d m%d b0 a%d e m%d" % (h, B, 2 * B + 1, B),                  # manual submissions
+        "b0 r%d a%d e b0 r%d e b0 r%d e" % (2 * B, B + 3, h, h),        # compressible blocks, duplicate fragments
+        "b0 z%d a%d z%d e" % (B, 2 * B + 7, B),                         # sparse blocks in between (no compressor call)
+        "b0 a%d e" % (5 * B + h),                                       # long append: get_new_block has to dequeue
+        "b0 a%d e s b0 a%d a%d e s" % (h, h + 1, B),
+        # fragments completed before a failing data block and dequeued after it: fragment block submits from dequeue
+        " ".join("b0 a%d e" % (B if i % 4 == 3 else h + 1 + i) for i in range(10)),
+        " ".join("b0 a%d e" % (h + 1 + i) for i in range(7)) + " b0 a%d e " % (2 * B) + " ".join("b0 a%d e" % (h + 9 + i) for i in range(5)),
+    ]
+
+
+def bpfail_random_list(rnd, B):
+    sizes = [B // 4, B // 2, B - 1, B, B + 1, 3 * B // 2, 2 * B, 2 * B + B // 3, 3 * B + 1]
+    ops = []
+    for _ in range(rnd.randint(1, 5)):
+        r = rnd.random()
+        if r < 0.12:
+            ops.append("m%d" % rnd.choice([B // 3, B // 2, B]))
+        elif r < 0.22:
+            ops.append("s")
+        ops.append("b%d" % rnd.choice([0, 0, 0, 4, 4, 8, 16, 2, 1]))
+        for _ in range(rnd.randint(1, 4)):
+            ops.append("%s%d" % (rnd.choice("aaaaaarz"), rnd.choice(sizes)))
+        ops.append("e")
+    return " ".join(ops)
+
+
+def gen_bpfail_cases(ctx):
+    """F <cid> <bs> <workers> <backlog> <io> <k|all> <mode> <sched seed> <cont> <ops>.  The directed part does not
+    depend on ctx.seed (so the site coverage asserted below is the same for every seed)."""
+    rnd = random.Random(ctx.seed + 909)
+    thorough = ctx.tier == "thorough"
+    cases = []
+    cid = 0
+    B = 64
+    scheds = [("W", 1), ("M", 1), ("P", 2), ("P", 5), ("R", 11), ("R", 12)]
+    for li, ops in enumerate(bpfail_lists(B)):
+        for nw in (1, 2):
+            for mode, sseed in scheds:
+                for cont in (0, 1):
+                    backlog = (3, 6, 9)[(li + nw + cont) % 3]
+                    cases.append("F d%d %d %d %d %d all %s %d %d %s" % (cid, B, nw, backlog, (li + nw) % 2, mode,
+                                                                       sseed + 100 * li + nw, cont, ops))
+                    cid += 1
+    nrand = 400 if thorough else 40
+    for i in range(nrand):
+        Br = rnd.choice([32, 64, 64, 128])
+        ops = bpfail_random_list(rnd, Br)
+        for mode in (["W", "M", "P", "R", "R", "P"] if thorough else ["W", rnd.choice("MP"), "R"]):
+            cases.append("F r%d %d %d %d %d all %s %d %d %s" % (cid, Br, rnd.randint(1, 4 if thorough else 3),
+                                                               rnd.choice([3, 3, 4, 8]), rnd.randrange(2), mode,
+                                                               rnd.getrandbits(32), rnd.randrange(2), ops))
+            cid += 1
+    return cases
+
+
+BPFAIL_SITES = ["append-loop", "append-tail", "end-sentinel", "end-current", "fragblk-dequeue", "fragblk-finish", "manual"]
+
+
+def bpfail_runs(ctx, exe, lines, env, verbose=False):
+    """run h_bpfail on `lines`; returns (#runs, histogram {(seen, site): n}).  A process that dies (ASan/UBSan
+    abort, signal) is attributed to the case that had begun; the rest of its share is re-run."""
+    nproc = 8
+    parts = [lines[k::nproc] for k in range(nproc)]
+    parts = [p for p in parts if p]
+
+    def explicit(line, runid):
+        """the case line with k made explicit (replay of one run)"""
+        f = line.split()
+        f[6] = runid.rsplit("/", 1)[1]
+        return " ".join(f)
+
+    def one(part):
+        res = []        # (line, runid, verdict, rest)
+        crashes = []    # (line, runid, rc, stderr tail)
+        todo = list(part)
+        restarts = hangs = 0
+        while todo and restarts < 6 and hangs < 2:
+            rc, out, err = run_proc([exe] + (["-v"] if verbose else []), "\n".join(todo) + "\n", 300, env)
+            by_cid = dict((l.split()[1], l) for l in todo)
+            begun = None
+            done_cids = []
+            for l in out.split("\n"):
+                if l.startswith("BEGIN "):
+                    begun = l[6:].strip()
+                    c = begun.rsplit("/", 1)[0]
+                    if c not in done_cids:
+                        done_cids.append(c)
+                elif l.startswith("F "):
+                    f = [x.strip() for x in l.split("|")]
+                    runid = f[0][2:].strip()
+                    res.append((by_cid.get(runid.rsplit("/", 1)[0], ""), runid, f[1] if len(f) > 1 else "?",
+                                f[2] if len(f) > 2 else ""))
+                    if begun == runid and not (len(f) > 1 and f[1].startswith("ORACLE:block-owned") or
+                                               len(f) > 1 and f[1].startswith("ORACLE:block-list")):
+                        begun = None
+                elif verbose and l.startswith("T "):
+                    print(l)
+            if rc in (0, 5):    # 5: the harness gave up after three runs with a call that never returns (reported)
+                break
+            if rc in (3, 124):
+                hangs += 1
+            # died: attribute to the run that had begun, continue with the lines not yet started
+            if begun is not None:
+                crashes.append((by_cid.get(begun.rsplit("/", 1)[0], ""), begun, rc, err[-4000:]))
+            elif rc != 3:       # 3 = watchdog: its HANG line is the report
+                crashes.append(("", "?", rc, err[-4000:]))
+            todo = [l for l in todo if l.split()[1] not in done_cids]
+            restarts += 1
+        return res, crashes
+
+    with ThreadPoolExecutor(max_workers=nproc) as tp:
+        results = list(tp.map(one, parts))
+    n = 0
+    hist = {}
+    seen_sig = set()
+    crashed_runs = {}
+    for res, crashes in results:
+        for line, runid, rc, err in crashes:
+            crashed_runs[runid] = (line, rc, err)
+    for res, crashes in results:
+        for line, runid, verdict, rest in res:
+            n += 1
+            m = re.search(r"failed=(\d) seen=(\S) site=(\S+)", rest)
+            if m and m.group(1) == "1":
+                key = "%s:%s" % (m.group(2), m.group(3))
+                hist[key] = hist.get(key, 0) + 1
+            m = re.search(r"abandoned=(\d+)", rest)
+            if m and int(m.group(1)) > 0:
+                hist["runs-with-blocks-abandoned-in-pool"] = hist.get("runs-with-blocks-abandoned-in-pool", 0) + 1
+            if verdict in ("OK", "CREATE-FAILED"):
+                continue
+            sig = "bpfail:" + (verdict[7:] if verdict.startswith("ORACLE:") else verdict.lower())
+            if sig in seen_sig:
+                continue
+            seen_sig.add(sig)
+            f = line.split()
+            what = ("block processor on the controlled pool, compressor failing at call %s, schedule %s/%s, %s workers, "
+                    "backlog %s, ops '%s': %s (%s)" % (runid.rsplit("/", 1)[1], f[7] if len(f) > 7 else "?",
+                                                      f[8] if len(f) > 8 else "?", f[3] if len(f) > 3 else "?",
+                                                      f[4] if len(f) > 4 else "?", " ".join(f[10:]), verdict, rest))
+            rep = dict(kind="bpfail", case=explicit(line, runid) if line else "", output="%s | %s" % (verdict, rest))
+            if runid in crashed_runs:
+                err = crashed_runs[runid][2]
+                sm = re.search(r"SUMMARY: (.*)", err)
+                what += "; tearing the block processor down afterwards: %s" % (sm.group(1)[:200] if sm else
+                                                                               "process died rc=%d" % crashed_runs[runid][1])
+                rep["stderr"] = err
+            ctx.violation(sig, what, rep)
+    for runid, (line, rc, err) in crashed_runs.items():
+        if any(r[1] == runid and r[2] != "OK" for res, _c in results for r in res):
+            continue    # already reported together with its oracle verdict
+        sm = re.search(r"SUMMARY: (\S+): (\S+)", err)
+        kind = sm.group(2) if sm else ("rc%d" % rc)
+        sig = "bpfail:sanitizer:" + kind
+        if sig in seen_sig:
+            continue
+        seen_sig.add(sig)
+        f = line.split()
+        ctx.violation(sig, "block processor on the controlled pool, compressor failing at call %s, ops '%s': process died "
+                      "(rc=%d) %s" % (runid.rsplit("/", 1)[-1], " ".join(f[10:]), rc,
+                                      (re.search(r"SUMMARY: (.*)", err).group(1)[:240] if sm else err[-300:])),
+                      dict(kind="bpfail", case=explicit(line, runid) if line else "", stderr=err), no_input=not line)
+    return n, hist
+
+
 # ---------------------------------------------------------------- running
 
 def chunks(lst, n):
@@ -251,6 +433,10 @@ def build_all(ctx):
                     per_file_flags={"lib/util/src/threadpool.c": ["-I" + HERE, "-include", shim_h]})
     h_blkshim = B.compile_harness(sinfo, [os.path.join(HERE, "h_blk.c"), os.path.join(HERE, "shim_sched.c")],
                                   "h_blkshim_c09", extra=["-DBLK_SHIM", "-I" + HERE, "-DSHIM_HDR_HASH=0x" + hh[:8]])
+    # the ASan+UBSan block processor objects of the library + the working tree's threadpool.c on the scheduler
+    h_bpfail = B.compile_harness(ainfo, [os.path.join(HERE, "h_bpfail.c"), os.path.join(HERE, "h_bpfail_pool.c"),
+                                         os.path.join(HERE, "shim_sched.c")], "h_bpfail_c09",
+                                 extra=["-I" + HERE, "-DSHIM_HDR_HASH=0x" + hh[:8]])
     h_tsan = None
     if ctx.tier == "thorough":
         tinfo = dict(info)
@@ -261,7 +447,8 @@ def build_all(ctx):
         except B.BuildError as ex:
             ctx.notes.append("TSan build failed: %s" % str(ex)[-300:])
     drv = core.build_model_driver("C09", "ExtractC09.v", os.path.join(HERE, "driver.ml"))
-    return dict(pool=h_pool, serial=h_serial, real=h_real, blk=h_blk, blkshim=h_blkshim, tsan=h_tsan, drv=drv)
+    return dict(pool=h_pool, serial=h_serial, real=h_real, blk=h_blk, blkshim=h_blkshim, tsan=h_tsan, drv=drv,
+                bpfail=h_bpfail)
 
 
 def shim_tie(ctx, ex, cases, timeout):
@@ -446,6 +633,8 @@ def run(ctx):
         "only one thread (the submitter) calls the pool API, as documented",
     ]
     env_asan = dict(os.environ, ASAN_OPTIONS="detect_leaks=0", UBSAN_OPTIONS="halt_on_error=1")
+    env_lsan = dict(os.environ, ASAN_OPTIONS="detect_leaks=1:fast_unwind_on_malloc=0",
+                    UBSAN_OPTIONS="halt_on_error=1:print_stacktrace=1")
 
     if ctx.replay:
         r = json.load(open(ctx.replay))
@@ -459,6 +648,9 @@ def run(ctx):
             print("\n".join(verbose_trace(ex["pool"], e)))
         elif kind in ("real", "blk", "blkshim") and r.get("case"):
             n, _ = real_runs(ctx, ex[kind], [r["case"]], kind, env_asan)
+            ctx.coverage["evaluations"] = n
+        elif kind == "bpfail" and r.get("case"):
+            n, _h = bpfail_runs(ctx, ex["bpfail"], [r["case"]], env_lsan, verbose=True)
             ctx.coverage["evaluations"] = n
         elif kind == "serial" and r.get("case"):
             ctx.coverage["evaluations"] = serial_tie(ctx, ex, [r["case"]])
@@ -511,24 +703,49 @@ def run(ctx):
                          "not look; relevant to C13, not a C09 violation" % (unrep, nb))
     ctx.log("serial %d, real-thread %d, block-processor %d cases" % (ns, nr, nb))
 
+    # 3b. block processor (ASan+UBSan+LSan) on the controlled pool, compressor failing at its k-th call
+    fcases = gen_bpfail_cases(ctx)
+    nviol = len(ctx.violations)
+    nf, fhist = bpfail_runs(ctx, ex["bpfail"], fcases, env_lsan)
+    rejected_at = dict((site, fhist.get("S:" + site, 0)) for site in BPFAIL_SITES)
+    ctx.log("failing-pool leg: %d case lines, %d runs; failure first seen by submit at %s; by dequeue %d, by get_status %d"
+            % (len(fcases), nf, rejected_at, sum(v for k, v in fhist.items() if k.startswith("D:")),
+               sum(v for k, v in fhist.items() if k.startswith("G:"))))
+    if len(ctx.violations) == nviol and (nf < 1000 or min(rejected_at.values()) == 0 or
+                                       not any(k.startswith("D:") for k in fhist)):
+        ctx.violation("machinery-bpfail-coverage", "failing-pool leg lost its coverage: %d runs, rejected submits per site %s, "
+                      "histogram %s" % (nf, rejected_at, fhist), dict(kind="machinery"), no_input=True)
+    if fhist.get("runs-with-blocks-abandoned-in-pool"):
+        ctx.notes.append("failing-pool leg: in %d of %d runs the block processor was torn down after the reported failure "
+                         "with blocks still inside the pool (accepted, never dequeued): block_processor_destroy frees its "
+                         "own lists and pool->destroy frees only the pool's wrappers, so these blocks are leaked by the "
+                         "unchanged code on the error path (released by the harness's pool proxy, counted, not judged: "
+                         "the pool's contract is proved in Properties_C09.v, pool_owned_are_accepted_minus_returned)"
+                         % (fhist["runs-with-blocks-abandoned-in-pool"], nf))
+    nb += nf
+
     ctx.coverage["evaluations"] = stats["execs"] + ns + nr + nb
     ctx.coverage["distinct_nontrivial"] = stats["states"]
     ctx.coverage["traces_validated_against_impl"] = stats["agree"]
     ctx.coverage["exhaustive"] = False
     ctx.coverage["distribution"] = dict(shim_cases=len(cases), shim_executions=stats["execs"],
                                         distinct_states=stats["states"], dfs_truncated=stats["truncated"],
-                                        serial_cases=ns, real_thread_cases=nr, block_processor_cases=nb)
+                                        serial_cases=ns, real_thread_cases=nr, block_processor_cases=nb,
+                                        failing_pool_runs=nf, failing_pool_first_seen=fhist)
     ctx.coverage["rule"] = (
         "shim: complete DFS (all interleavings incl. unbounded spurious wake-ups, state cache) of threadpool.c for "
         "1-2 workers x %d client programs with <=3 items x every failing position (and 3 workers, <=2 items); "
         "%s; %d seeded random schedules of 2-4 workers / <=5 items; every execution replayed on the extracted model "
         "(per-step event + abstract state + thread states compared by trace hash); distinct_nontrivial = distinct "
         "abstract states reached by the DFS; serial pool: %d programs; real threads (ASan%s): %d programs incl. "
-        "test_threadpool-style reverse completion; block processor with failing compressor: %d runs; seed %d"
+        "test_threadpool-style reverse completion; block processor with failing compressor: %d runs (of which %d: "
+        "ASan+UBSan+LSan block processor on the controlled pool, %d file lists x every k (compressor fails at its k-th "
+        "call) x schedules workers-first / main-first / phases / random x stop-or-continue after the first error, "
+        "ownership oracle after every call); seed %d"
         % (len(programs(3)), "3 workers x 5 items complete" if ctx.tier == "thorough" else
            "3 workers x 5 items with <=2 pre-emptions, <=1 spurious wake-up (4 program/failure pairs)",
            sum(int(c.split()[-3]) for c in cases if " rand " in c), ns,
-           "+TSan" if ex.get("tsan") else "", nr, nb, ctx.seed))
+           "+TSan" if ex.get("tsan") else "", nr, nb, nf, len(fcases), ctx.seed))
     ctx.add_samples(samples)
 
     # 4. independent re-check of the compiled proofs (thorough tier)
